@@ -51,6 +51,17 @@ CLAIMS["C06"] = dict(
     technique="contract-based deductive verification: stencil contracts on symbolic meshes + per-site NRA on the real step function",
     note=OPS_NOTE + " The constructor clause (psi_init on terminal sites, fix_psi iff terminal_psi is not None) is not yet under contract.")
 
+CLAIMS["C04"] = dict(
+    category="proof",
+    text="Operator level, for all meshes, vector potentials, psi and gauge functions chi: the real build_gradient / get_supercurrent "
+         "executed for A and for A' (A'.d = A.d + chi_j - chi_i) give a covariant gradient and an unchanged supercurrent at the generic "
+         "edge; the covariant Laplacian transforms covariantly (per-edge lemma on the C03 stencil). Step level: the real "
+         "solve_for_psi_squared executed for (psi, L psi) and the rotated pair: same refusal test, same |psi'|^2, rotated psi'; a constant "
+         "shift of mu is a global phase. The whole-run clause is a written corollary (lemmas/gauge_run.md), not mechanised.",
+    design_ref="DESIGN.md section 4 C04",
+    technique="contract-based deductive verification: relational (two-run) VCs on the real functions; polynomial identities modulo unit-circle constraints (ring normalisation + z3)",
+    note=OPS_NOTE + " cis laws (A3); A5 for mu; recentring of the uniform-field potential is decided in C08.")
+
 NA = {}
 
 checks = []
